@@ -104,6 +104,13 @@ def _duration_bounds_interrupted(ctx, run, groups, where, location):
                 if not (is_app(rhs, "+") and len(rhs) == 4):
                     continue
                 base, total = rhs[2], rhs[3]
+                if is_app(total, "Sum") and len(total) == 3 and total[2][0] == "each" and len(total[2][1]) > 1:
+                    ctx.violation("R-RC-RELATION", where, "duration bound with the overlapped time",
+                                  f"the time added to the duration bound of one task is summed over "
+                                  f"{[show(norm(l[3]))[:80] for l in total[2][1]]}, not over the interruption intervals only: "
+                                  f"{show(norm(total))[:260]}", location)
+                    found_min = found_max = True
+                    continue
                 if not (is_app(total, "Sum") and len(total) == 3 and total[2][0] == "each" and len(total[2][1]) == 1):
                     raise P.AnalysisError(f"R-RC-RELATION: {where}: total overlap term not understood: {show(total)[:200]}")
                 L = total[2][1][0]
@@ -481,6 +488,41 @@ def r_union_exh(ctx, bases=("Constraint",)):
     ctx.floor("R-UNION-EXH", "classes scanned", n, 8)
 
 
+def r_union_exh_raise(ctx, bases=("Constraint",)):
+    """a rejection test must not read the busy dict of a possibly cumulative resource itself: that dict is never filled on the
+    normal assignment route (the intervals live on the unit workers), so the test rejects every well-formed element on a
+    cumulative worker (or never rejects)"""
+    proj = ctx.project
+    n = 0
+    for base in bases:
+        for c in proj.subclasses(base):
+            fld = c.all_fields().get("resource")
+            if fld is None or "CumulativeWorker" not in set(P.type_classes(fld.type)):
+                continue
+            runs = runs_of(ctx, Entry("init", cls=c.name, opaque=OPAQUE))
+            where = f"{c.name}.__init__"
+            bad = None
+            for run in runs:
+                for ev in run.events_of("raise"):
+                    for g in ev.guards:
+                        for x in subterms(g):
+                            if x and x[0] == "attr" and x[2] == "_busy_intervals" and x[1] == A(SELF, "resource"):
+                                d = run.doms.get(x[1])
+                                classes = d.classes if d is not None and d.classes is not None else None
+                                if classes is None or "CumulativeWorker" in classes:
+                                    bad = (ev, g)
+            n += 1
+            if bad:
+                ev, g = bad
+                ctx.violation("R-UNION-EXH", where, "rejection test reads the cumulative resource's own (empty) busy dict",
+                              f"{c.name} raises under `{show(norm(g))[:160]}` where the resource may be a CumulativeWorker: its own busy "
+                              f"dict is never filled (the intervals live on the unit workers), so a well-formed constraint on an "
+                              f"assigned cumulative worker is rejected", f"processscheduler/{ev.site.module}.py:{ev.site.lineno}")
+            else:
+                ctx.ok("R-UNION-EXH", f"{where}: no rejection test reads the cumulative resource's own busy dict", nontrivial=False)
+    ctx.floor("R-UNION-EXH", "classes with a Union[Worker, CumulativeWorker] resource scanned for rejection tests", n, 5)
+
+
 def r_loopvar(ctx, bases=("Constraint", "Indicator", "Objective"), solver=False):
     """a term emitted after a loop must not be built from the loop's own variables"""
     n = 0
@@ -625,4 +667,4 @@ def r_sibling_periodic(ctx):
                       f"one of the two is wrong", loc(a[0][1]))
 
 
-RULES = [r_rc_relation, r_attr, r_union_exh, r_sibling_periodic, lambda ctx: r_loopvar(ctx, bases=("Constraint",)), r_periodic_struct]
+RULES = [r_rc_relation, r_attr, r_union_exh, r_union_exh_raise, r_sibling_periodic, lambda ctx: r_loopvar(ctx, bases=("Constraint",)), r_periodic_struct]
